@@ -24,6 +24,10 @@ type Level struct {
 	// Flavour != "": sibling leaf levels with the same Flavour share one prompt and one pattern (the
 	// prompt cannot tell them apart; e.g. configuration / configuration-exclusive / configuration-private).
 	Flavour string `json:"flavour,omitempty"`
+	// ChatIn / ChatOut: a line the device prints before the new prompt when this level is entered by its
+	// escalate command / left by its de-escalate command (mode-change chatter).
+	ChatIn  string `json:"chat_in,omitempty"`
+	ChatOut string `json:"chat_out,omitempty"`
 }
 
 // Payload is a workload command (never changes the mode) with the output lines of the device.
@@ -74,6 +78,13 @@ type Sess struct {
 	// one process "sequential" or "concurrent" (all drivers open before any is used).
 	Group     []Sess `json:"group,omitempty"`
 	GroupMode string `json:"group_mode,omitempty"`
+	// SharedMap (group): all drivers of the group are built from ONE map of *PrivilegeLevel objects.
+	SharedMap bool `json:"shared_map,omitempty"`
+	// SecretViaField: the secondary secret is not given as an option; the exported field
+	// Driver.AuthSecondary is set after NewDriver.
+	SecretViaField bool `json:"secret_via_field,omitempty"`
+	// FailedWhen: the driver's failed-when-contains list (options.WithFailedWhenContains).
+	FailedWhen []string `json:"failed_when,omitempty"`
 	// AltParents: parent vectors of the other trees over the same labels (observation only).
 	AltParents [][]int `json:"alt_parents,omitempty"`
 }
@@ -413,6 +424,13 @@ func checkPreconditions(s *Sess) error {
 		outs = append(outs, strings.Join(p.Out, "\n")+"\n")
 	}
 	outs = append(outs, errLine+"\n", deniedLine+"\n", confirmText, hiddenText, "done\n", "accepted\n", s.AskPrompt)
+	for _, l := range s.Levels {
+		for _, c := range []string{l.ChatIn, l.ChatOut} {
+			if c != "" {
+				outs = append(outs, c+"\n")
+			}
+		}
+	}
 	for _, o := range outs {
 		if prefixLooksLikePrompt(joined, o+"x") {
 			return fmt.Errorf("output %q has a prefix that looks like a prompt", o)
@@ -1247,6 +1265,99 @@ func genWindowCase(r *rand.Rand) Sess {
 	}
 }
 
+// genSharedMapCase: 2-3 drivers alive at the same time in one process, all built from ONE map of
+// *PrivilegeLevel objects (as platform.AsOptions / a shared literal do), each with its OWN secondary
+// secret, which its device checks; one member may have no secret at all (its device never asks), a
+// secret may be stated through the exported field Driver.AuthSecondary after NewDriver. With
+// probability 1/4: a single driver whose secret is stated through the field.
+func genSharedMapCase(r *rand.Rand) Sess {
+	n := 2 + r.Intn(4)
+	base := newSess(r, "sharedmap", "auth", randomTree(r, n, []string{"random", "caterpillar", "chain", "star"}[r.Intn(4)]), r.Intn(2) == 0)
+	g := Sess{Kind: "sharedmap", Variant: "auth", GroupMode: "concurrent", SharedMap: true, Shape: "one-level-map"}
+	secrets := []string{"alpha-s3cret", "bravo secret", "Ch4rlie", "d"}
+	perm := r.Perm(len(secrets))
+	k := 2 + r.Intn(2)
+	single := r.Intn(4) == 0
+	if single {
+		k = 1
+	}
+	noSecret := -1
+	if !single && r.Intn(3) == 0 {
+		noSecret = r.Intn(k)
+	}
+	for i := 0; i < k; i++ {
+		m := base
+		m.Levels = append([]Level(nil), base.Levels...)
+		m.Ops = nil
+		m.Secondary = secrets[perm[i]]
+		m.SecretViaField = single || r.Intn(3) == 0
+		if i == noSecret {
+			// this driver has no secondary secret; its device never asks for one
+			m.Secondary, m.SecretViaField = "", false
+			for j := range m.Levels {
+				m.Levels[j].Asks = false
+			}
+		}
+		m.Start, m.Default = r.Intn(n), r.Intn(n)
+		m.Seg.Seed = r.Int63()
+		if n <= 4 {
+			for _, t := range eulerTour(r, n) {
+				m.Ops = append(m.Ops, m.opTowards(r, t))
+			}
+		} else {
+			m.randomOps(r, 8+r.Intn(6))
+		}
+		g.Group = append(g.Group, m)
+	}
+	return g
+}
+
+var failedWhenLists = [][]string{
+	{"% Ambiguous command", "% Incomplete command", "% Invalid input detected", "% Unknown command"}, // stock cisco-like
+	{"error:", "warning:", "unknown command", "syntax error"},                                        // stock junos-like
+	{"MINOR:", "MAJOR:", "Error:"},                                                                   // stock sros-like
+	{"not saved", "denied"},                                                                          // custom
+}
+
+// genChatterCase: the device prints a line on mode-changing commands (before the new prompt) that
+// contains a member of the driver's failed-when list -- on every kind of edge: de-escalate, plain
+// escalate, escalate with the secret, escalate with auth configured but not asked.
+func genChatterCase(r *rand.Rand) Sess {
+	n := 2 + r.Intn(5)
+	variant := []string{"plain", "auth", "auth"}[r.Intn(3)]
+	for {
+		s := newSess(r, "chatter", variant, randomTree(r, n, []string{"random", "random", "chain", "star", "caterpillar"}[r.Intn(5)]), r.Intn(3) != 0)
+		s.FailedWhen = failedWhenLists[r.Intn(len(failedWhenLists))]
+		chat := func() string {
+			if r.Intn(10) < 3 {
+				return ""
+			}
+			m := s.FailedWhen[r.Intn(len(s.FailedWhen))]
+			return []string{
+				m + " uncommitted changes are kept in the candidate",
+				"info, " + m + " counters cleared on mode change",
+				m,
+			}[r.Intn(3)]
+		}
+		for i := range s.Levels {
+			if s.Levels[i].Parent >= 0 {
+				s.Levels[i].ChatIn, s.Levels[i].ChatOut = chat(), chat()
+			}
+		}
+		if checkPreconditions(&s) != nil {
+			continue
+		}
+		if n <= 4 && r.Intn(2) == 0 {
+			for _, t := range eulerTour(r, n) {
+				s.Ops = append(s.Ops, s.opTowards(r, t))
+			}
+		} else {
+			s.randomOps(r, 6+r.Intn(7))
+		}
+		return s
+	}
+}
+
 func gen(tier string, seed int64) []mon.Case {
 	var cs []mon.Case
 	maxN := 4
@@ -1335,8 +1446,18 @@ func gen(tier string, seed int64) []mon.Case {
 	for i := 0; i < nFlav; i++ {
 		cs = append(cs, mon.MkCase(fmt.Sprintf("c04/flavours-%04d", i), genFlavourCase(rng())))
 	}
+	nShared, nChat := 30, 40
+	if tier == "thorough" {
+		nShared, nChat = 300, 400
+	}
 	for i := 0; i < nWin; i++ {
 		cs = append(cs, mon.MkCase(fmt.Sprintf("c04/window-%04d", i), genWindowCase(rng())))
+	}
+	for i := 0; i < nShared; i++ {
+		cs = append(cs, mon.MkCase(fmt.Sprintf("c04/sharedmap-%04d", i), genSharedMapCase(rng())))
+	}
+	for i := 0; i < nChat; i++ {
+		cs = append(cs, mon.MkCase(fmt.Sprintf("c04/chatter-%04d", i), genChatterCase(rng())))
 	}
 	return cs
 }
